@@ -164,6 +164,7 @@ def run_one(seed, preset=None, tier="quick", want_case=False):
     cancel_steps = cfgt.draw(24) if (cancel is not None and cfgt.chance(50)) else None
     name, twin = "%s_%d" % (ID, seed), "%s_%d_twin" % (ID, seed)
     viol = []
+    dfs_info = None
     try:
         engine = cook_engine(schema, name, cfg, sdl=sdl, pre=register_mark, **extra)
         twin_engine = cook_engine(schema, twin, cfg, sdl=sdl, pre=register_mark, query_cache_decorator=None)
@@ -214,6 +215,33 @@ def run_one(seed, preset=None, tier="quick", want_case=False):
                 elif ev[1] == "finish":
                     live[ev[2]] = live.get(ev[2], 0) - 1
                 concurrent = max(concurrent, len([1 for n in live.values() if n > 0]))
+        # small batches: enumerate ALL interleavings of the clients' resolver completions
+        n_calls = sum(len([c for c in x.plan.calls if c.args is not None]) for x in reqs if x.plan is not None)
+        if not viol and cancel is None and len(reqs) <= 3 and 2 <= n_calls + len(reqs) <= 6:
+            from simv.simloop import Script, next_script
+            prefix, n_exec, exhausted = [], 0, False
+            while True:
+                script = Script(prefix)
+                batch = [x.clone() for x in reqs]
+                bo = run_batch(engine, batch, script, "script", 0, "gate", None, True, {})
+                n_exec += 1
+                if bo.exc is not None:
+                    viol.append(V("no_termination", "interleaving %r: %r" % ([c for c, _ in script.log], bo.exc)))
+                    break
+                for x in batch:
+                    solo = solos[x.rid]
+                    if x.exc is not None or (solo.resp is not None and not same_response(x.resp, solo.resp)):
+                        viol.append(V("differs_from_solo", "interleaving %r: request %d (%s) differs from its solo response: %s" % (
+                            [c for c, _ in script.log], x.rid, x.label, repr(x.exc) if x.exc is not None else describe_diff(x.resp, solo.resp)),
+                            kind=diff_kind(x.resp, solo.resp) if x.exc is None else "raised"))
+                nxt = next_script(script.log)
+                if nxt is None:
+                    exhausted = True
+                    break
+                if n_exec >= 150 or viol:
+                    break
+                prefix = nxt
+            dfs_info = (n_exec, exhausted)
         # afterwards: each request replayed on the *used* engine behaves as on a fresh one
         if not [v for v in viol if v["sig"].get("kind") != "shared_exception_path_or_locations_only"
                 and v["sig"].get("only_in") != "shared_exception_entries"]:
@@ -246,6 +274,9 @@ def run_one(seed, preset=None, tier="quick", want_case=False):
     r0["faults"] = faults
     r0["sched_kinds"] = {sch[0]: 1}
     r0["metrics"] = {"requests": len(reqs), "max_requests_suspended_together": concurrent, "cache_" + cache: 1}
+    if dfs_info:
+        r0["metrics"]["dfs_executions"] = dfs_info[0]
+        r0["metrics"]["dfs_batches_exhausted" if dfs_info[1] else "dfs_batches_truncated"] = 1
     labels = [x.label for x in reqs]
     r0["probes"] = {
         "same_document_twice": int(len({x.text for x in reqs}) < len(reqs)),
